@@ -302,6 +302,10 @@ def finish(run: Run, proof: Proof, level='proof', note_partial=None) -> int:
         broken.append('model-driver')
     status = 0
     replay_path = None
+    rdir0 = VERIF / 'replays' / pid
+    if rdir0.exists() and run.only is None:
+        for old in rdir0.glob('*.json'):
+            old.unlink()  # replays describe the latest run only
     if unlisted or broken:
         status = 1
         rdir = VERIF / 'replays' / pid
